@@ -133,6 +133,11 @@ class FileHashsum(HashIO):
             ok = res.t == z3.Concat(alg_t, z3.StringVal(":"), HEX(alg_t, DISK(a.path.t)))
         return [("digest-of-file-bytes", ok, "file hashes equal the standard digest of the file bytes with the algorithm prefix")]
 
+    def effects(self, cx, a):
+        from .common_io import path_term
+
+        cx.effect("open-read", path_term(a.path))
+
     def result(self, cx, a):
         alg_t = a.alg.t if isinstance(a.alg, SStr) else z3.StringVal(a.alg)
         from .common_io import path_term
@@ -164,6 +169,11 @@ class HashsumFile(HashIO):
         if isinstance(res, SStr):
             ok = res.t == z3.Concat(alg, z3.StringVal(":"), HEX(alg, self.payload(cx, a)))
         return [("digest-of-payload-after-skip", ok, "container hash = default-algorithm digest of exactly the bytes after the skipped user block")]
+
+    def effects(self, cx, a):
+        from .common_io import path_term
+
+        cx.effect("open-read", path_term(a.filename))
 
     def result(self, cx, a):
         alg = z3.StringVal(def_alg(cx))
